@@ -14,7 +14,7 @@ import ast
 from ..core import AnalysisError, norm, loc, walk_no_nested, attr_chain, call_name, receiver_name, find_calls
 from ..cfg import CFG
 from ..core import func_params, kwarg
-from ..normalize import inline, branch_values, Unknown, builders, local_env, expand, canon, ctext, conjuncts, merge_outcomes
+from ..normalize import inline, branch_values, Unknown, builders, local_env, expand, canon, ctext, conjuncts, merge_outcomes, truth_under
 
 AUTHZ = 'fim.authz.attribute_collector:ResourceAuthZAttributes'
 LOGC = 'fim.logging.log_collector:LogCollector'
@@ -218,6 +218,19 @@ def run(prog, rep):
     tp = az.methods.get('transform_to_pdp_request')
     cats = {c.value for n in ast.walk(tp) if isinstance(n, ast.Dict) for k, c in zip(n.keys, n.values)
             if isinstance(k, ast.Constant) and k.value == 'CategoryId' and isinstance(c, ast.Constant)}
+    # skeleton entries generated from a constant sequence of category ids
+    for n in ast.walk(tp):
+        if isinstance(n, (ast.ListComp, ast.GeneratorExp)) and isinstance(n.elt, ast.Dict):
+            for k, c in zip(n.elt.keys, n.elt.values):
+                if isinstance(k, ast.Constant) and k.value == 'CategoryId' and isinstance(c, ast.Name):
+                    for g in n.generators:
+                        if isinstance(g.target, ast.Name) and g.target.id == c.id and not g.ifs:
+                            try:
+                                seq = prog.const_eval(g.iter, amod, az)
+                            except Exception:
+                                seq = None
+                            if isinstance(seq, (list, tuple)):
+                                cats.update(x for x in seq if isinstance(x, str))
     for k, v in types.items():
         rep.instance('R2', f'category of {k}')
         if not (isinstance(v, tuple) and len(v) == 2):
@@ -226,20 +239,41 @@ def run(prog, rep):
             rep.violation('R2', loc(amod, az.assigns['ATTRIBUTE_TYPES_AND_CATEGORIES']), f'{az.name}.ATTRIBUTE_TYPES_AND_CATEGORIES',
                           f'{k}: category {v[1]} not in the request skeleton',
                           f'attributes of category {v[1]} are silently dropped from the request')
-    # NSTYPE_LUT vs guarding set
+    # NSTYPE_LUT vs the service types for which the per-type site attribute is produced: evaluated per service type (a
+    # literal guard set, membership in the table itself, or an if-chain alike)
     ns = az.methods.get('_collect_attributes_from_ns_sliver')
-    guard_sets = [n for n in ast.walk(ns) if isinstance(n, ast.Compare) and isinstance(n.ops[0], ast.In)
-                  and isinstance(n.comparators[0], ast.Set) and 'resource_type' in ast.unparse(n.left)]
-    if len(guard_sets) != 1:
-        raise AnalysisError('service-type guard set not found in _collect_attributes_from_ns_sliver')
-    gset = {attr_chain(e)[-1] for e in guard_sets[0].comparators[0].elts}
+    _, ns_contrib0 = contributions(prog, az, ns)
+    ssl_ = [a.arg for a in ns.args.args if a.arg != 'self'][0]
+    per_type = [c for c in ns_contrib0 if c.key is None and isinstance(c.key_expr, ast.Subscript) and ast.unparse(c.key_expr.value) == 'self.NSTYPE_LUT']
+    if not per_type:
+        raise AnalysisError('no contribution under self.NSTYPE_LUT[<service type>] found in _collect_attributes_from_ns_sliver')
     lut_keys = {k.name for k in nstype}
-    rep.instance('R2', f'NSTYPE_LUT keys {sorted(lut_keys)} vs guard set {sorted(gset)}')
-    if gset != lut_keys:
-        rep.violation('R2', loc(amod, guard_sets[0]), f'{az.name}._collect_attributes_from_ns_sliver',
-                      f'guard set {sorted(gset)} != NSTYPE_LUT keys {sorted(lut_keys)}',
-                      'a service type in the guard set without a NSTYPE_LUT entry raises KeyError; one in the LUT but not '
-                      'in the set never contributes its site')
+    fold2 = lambda e_: prog.const_eval(e_, amod, az)
+    tkeys = {ctext(x) for c in per_type for n_ in c.conds for x in ast.walk(n_) if isinstance(x, ast.Attribute) and x.attr == 'resource_type'} | \
+        {ctext(c.key_expr.slice) for c in per_type}
+    reached = set()
+    for S in prog.enum_members('fim.slivers.network_service:ServiceType'):
+        sval = prog.const_eval(ast.parse(f'ServiceType.{S}', mode='eval').body, amod, az)
+        bind = {t_: sval for t_ in tkeys}
+        for c in per_type:
+            feasible = True
+            for n_ in c.conds:
+                if not any(ctext(x) in bind for x in ast.walk(n_)):
+                    continue
+                try:
+                    if not truth_under(n_, bind, fold2):
+                        feasible = False
+                        break
+                except Unknown:
+                    pass
+            if feasible:
+                reached.add(S)
+    rep.instance('R2', f'NSTYPE_LUT keys {sorted(lut_keys)} vs service types whose site is listed by type {sorted(reached)}')
+    if reached != lut_keys:
+        rep.violation('R2', loc(amod, ns), f'{az.name}._collect_attributes_from_ns_sliver',
+                      f'per-type site produced for {sorted(reached)} != NSTYPE_LUT keys {sorted(lut_keys)}',
+                      'a service type that reaches the NSTYPE_LUT lookup without an entry raises KeyError; one in the LUT that '
+                      'never reaches it never contributes its site')
     for k, v in nstype.items():
         rep.instance('R2', f'NSTYPE_LUT[{k}] = {v}')
         if v not in types:
